@@ -254,6 +254,9 @@ func (v *FHIRPathVisitor) VisitEqualityExpression(ctx *grammar.EqualityExpressio
 	case expr.Inequivalence:
 		// TODO (PHP-5889): Implement non-equivalence expressions
 	}
+	if expression == nil {
+		return &VisitResult{nil, fmt.Errorf("%w: operator '%s'", errNotSupported, operator)}
+	}
 	return v.transformedVisitResult(expression)
 }
 
